@@ -65,7 +65,7 @@ def _worker(args):
                     key = ob["name"]
                     if seen_keys.get(key, 0) < 3:  # up to 3 different models per key
                         seen_keys[key] = seen_keys.get(key, 0) + 1
-                        jobs.append(ob["model"])
+                        jobs.append(dict(ob["model"], __key=key))
                         meta.append(("candidate", pi, key))
         t0 = time.time()
         try:
@@ -241,6 +241,11 @@ def main(argv=None):
                 violations.append((r["scenario"], key, info["values"]))
         for key, tries in r.get("unconfirmed", {}).items():
             if key.startswith("CANARY"):
+                continue
+            if key.startswith("LEMMA"):
+                # a proof step failed but no witness input violates the property's own tolerance: not proved, not refuted
+                tot["inconclusive"] += 1
+                extra_notes.append(f"{r['scenario']}: {key}: lemma not discharged and no concrete witness violates the stated tolerance (inconclusive)")
                 continue
             harness_errors.append(
                 f"{r['scenario']}: ENCODING-MISMATCH: solver refuted '{key}' but no model reproduced on the unpatched code: {json.dumps(tries[:1])[:1500]}"
